@@ -165,13 +165,59 @@ pub fn workers() -> usize {
 }
 
 /// run indices 0..runs (or until the wall-clock cap) on all workers
+pub fn hang_limit() -> u64 {
+    std::env::var("VERIF_HANG_SECONDS").ok().and_then(|v| v.parse().ok()).unwrap_or(180)
+}
+
+/// A run did not return: write its configuration as a replay file, report, exit 1.
+fn report_hang(prop: &str, seed: u64, index: u64) -> ! {
+    let s = props::run_seed(seed, prop, index);
+    let cfg = props::gen_any(prop, s);
+    let key = format!("{}|{}|no-return", prop, props::shape_of(&cfg));
+    let detail = format!("run {} did not return within {} s: a call into the library does not terminate (the generators exclude the one documented case, copy_dir/move_dir into the source's own subtree)", index, hang_limit());
+    let dir = out_root().join("replays");
+    let _ = std::fs::create_dir_all(&dir);
+    let path = dir.join(format!("{}-{}.json", prop, key_hash(&key_class(&key))));
+    let doc = json!({"property": prop, "engine": props::engine_of(prop), "verif_seed": seed, "run_index": index, "minimise_runs": 0, "occurrences_in_batch": 1, "violation": {"key": key, "detail": detail, "step": 0}, "original_key": key, "cfg": cfg});
+    let _ = std::fs::write(&path, serde_json::to_string_pretty(&doc).unwrap());
+    say(&format!("  key: {}", key));
+    say(&format!("  detail: {}", detail));
+    say(&format!("VIOLATION property={} replay={}", prop, path.display()));
+    std::process::exit(1);
+}
+
 pub fn batch(prop: &str, seed: u64, runs: u64, max_seconds: u64, nworkers: usize) -> (Agg, f64, bool) {
     let start = Instant::now();
     let next = Arc::new(AtomicU64::new(0));
     let capped = Arc::new(AtomicBool::new(false));
     let agg = Arc::new(Mutex::new(Agg::default()));
     let mut hs = vec![];
-    for _ in 0..nworkers {
+    // watchdog: a run that does not come back (the library loops) must not hang the check. No run
+    // of the unchanged tree takes more than a few seconds; after `hang_limit()` the run is reported
+    // as a violation of the property under check (key ...|no-return) and the process exits 1.
+    let slots: Arc<Vec<Mutex<Option<(u64, Instant)>>>> = Arc::new((0..nworkers).map(|_| Mutex::new(None)).collect());
+    let batch_done = Arc::new(AtomicBool::new(false));
+    {
+        let slots = slots.clone();
+        let done = batch_done.clone();
+        let prop = prop.to_string();
+        std::thread::spawn(move || loop {
+            std::thread::sleep(std::time::Duration::from_millis(500));
+            if done.load(Ordering::SeqCst) {
+                return;
+            }
+            for sl in slots.iter() {
+                let cur = *sl.lock().unwrap();
+                if let Some((i, t0)) = cur {
+                    if t0.elapsed().as_secs() >= hang_limit() {
+                        report_hang(&prop, seed, i);
+                    }
+                }
+            }
+        });
+    }
+    for w in 0..nworkers {
+        let slots = slots.clone();
         let next = next.clone();
         let agg = agg.clone();
         let capped = capped.clone();
@@ -194,7 +240,9 @@ pub fn batch(prop: &str, seed: u64, runs: u64, max_seconds: u64, nworkers: usize
                         }
                         let s = props::run_seed(seed, &prop, i);
                         let cfg = props::gen_any(&prop, s);
+                        *slots[w].lock().unwrap() = Some((i, Instant::now()));
                         let out = props::run_any(&prop, &cfg, false);
+                        *slots[w].lock().unwrap() = None;
                         let shape = props::shape_of(&cfg);
                         local.merge(i, &cfg, out, shape);
                         n_local += 1;
@@ -250,6 +298,7 @@ pub fn batch(prop: &str, seed: u64, runs: u64, max_seconds: u64, nworkers: usize
             worker_panics += 1;
         }
     }
+    batch_done.store(true, Ordering::SeqCst);
     let mut a = Arc::try_unwrap(agg).ok().unwrap().into_inner().unwrap();
     if worker_panics > 0 {
         a.harness_errors.push(format!("{} worker thread(s) panicked outside a judged call (harness bug; re-run with VSIM_PANIC_TRACE=1)", worker_panics));
@@ -520,7 +569,25 @@ pub fn replay(path: &str, quiet: bool, trace: bool) -> i32 {
         }
     };
     let prop = doc["property"].as_str().unwrap_or("").to_string();
-    let out = props::run_any(&prop, &doc["cfg"], trace);
+    let out = {
+        let (tx, rx) = std::sync::mpsc::channel();
+        let (p2, c2) = (prop.clone(), doc["cfg"].clone());
+        std::thread::Builder::new().stack_size(64 << 20).spawn(move || {
+            let _ = tx.send(props::run_any(&p2, &c2, trace));
+        }).unwrap();
+        match rx.recv_timeout(std::time::Duration::from_secs(hang_limit())) {
+            Ok(o) => o,
+            Err(_) => {
+                let key = format!("{}|{}|no-return", prop, props::shape_of(&doc["cfg"]));
+                say(&format!("REPLAY-KEY {}", key));
+                if !quiet {
+                    say(&format!("  detail: the replayed run did not return within {} s", hang_limit()));
+                    say(&format!("VIOLATION property={} replay={}", prop, path));
+                }
+                std::process::exit(1);
+            }
+        }
+    };
     if trace {
         for l in &out.trace {
             say(l);
